@@ -5,6 +5,7 @@ import (
 	"bytes"
 	"fmt"
 	"io"
+	"strings"
 	"testing/iotest"
 
 	"verif/mc/env"
@@ -396,10 +397,61 @@ func runC09(x *core.Ctx) {
 					m[f.Start] = id
 					try("d.undefined-id", m)
 				}
+				// (c)/(d) in a frame whose property length also ends right after
+				// that identifier while the packet goes on: every reading of such a
+				// frame has the bad identifier or a property without its value
+				if spec.PropIsBool(f.PropID) && f.PropID != 0x24 && f.End-f.Start == 2 {
+					for _, val := range []byte{2, 7, 0xff} {
+						if nb := sectionEndsAfterID(v, hdr, f, []byte{v.B[f.Start], val}); nb != nil {
+							try("c.bool-value.section-ends-after-identifier", reframe(v.B[0], nb))
+						}
+					}
+				}
+				for _, id := range []byte{0x00, 0x7e, 0xff, f.PropID | 0x80} {
+					repl := append([]byte{id}, v.B[f.Start+1:f.End]...)
+					if nb := sectionEndsAfterID(v, hdr, f, repl); nb != nil {
+						try("d.undefined-id.section-ends-after-identifier", reframe(v.B[0], nb))
+					}
+				}
+				// undefined identifiers that are a defined one with the top bit
+				// set (a decoder that reads the identifier as a variable byte
+				// integer swallows the next byte) before every kind of next byte
+				if t := v.B[0] >> 4; (t == 3 || strings.HasSuffix(v.Name, ".rich") || strings.HasSuffix(v.Name, ".min")) && f.End-f.Start >= 2 {
+					for _, did := range definedIDs {
+						for _, nx := range []byte{0, 1, 2, 3, 4, 0x0b, 0x10, 0x23, 0x26, 0x40, 0x7f, 0x80, 0x81, 0xc0, 0xfe, 0xff} {
+							m := append([]byte{}, v.B...)
+							m[f.Start] = did | 0x80
+							m[f.Start+1] = nx
+							try("d.undefined-id.top-bit-set", m)
+						}
+					}
+				}
 			}
 		}
 	}
 	x.R.Extra["mutants_still_valid_skipped"] = skipped
+}
+
+// sectionEndsAfterID rebuilds the body with property f replaced by repl
+// and the enclosing property length rewritten so that the section ends
+// right after f's identifier byte (the rest of the packet follows).
+func sectionEndsAfterID(v VFrame, hdr int, f spec.Field, repl []byte) []byte {
+	var pl *spec.Field
+	for i := range v.Fields {
+		g := v.Fields[i]
+		if g.Kind == spec.FPropLen && g.Start < f.Start && g.InWill == f.InWill {
+			pl = &v.Fields[i]
+		}
+	}
+	if pl == nil {
+		return nil
+	}
+	old, _, ok := spec.ReadVarint(v.B[pl.Start:pl.End])
+	if !ok {
+		return nil
+	}
+	want := f.Start + 1 - pl.End
+	return adjustPropLen(v, hdr, f, want-int(old), repl)
 }
 
 // adjustPropLen rebuilds the body with the varint field f replaced by
